@@ -175,3 +175,24 @@ func init() {
 		Assumptions: []string{"README of c14n is the specification", "go/ssa faithful; z3 sound"},
 	})
 }
+
+func init() {
+	reg(&propCfg{
+		ID:      "C14",
+		Pkgs:    []string{"bill", ".", "c14n"},
+		Lenient: []string{"bill", "tax", "num", "cal", "currency", "cbc", "org", "pay", ".", "head", "dsig", "c14n"},
+		Stages: []stage{
+			{Name: "L0", Harness: `^H_C05_L0_`},
+			{Name: "nil-patterns", Harness: `^H_C14_|^H_C07_Tokens`, Subst: numSummaries, Needs: []string{"L0"}},
+		},
+		Functions: []string{"bill.calculate and callees on invoices", "bill.(*Payment).calculate", "bill.(*PaymentLine).calculate", "org.(*DocumentRef).Calculate", "bill.calculateLineItemPrice", "currency.Convert",
+			"gobl.(*Envelope).Verify / verifySignature", "head.(*Header).Contains", "c14n token layer (H_C07_Tokens)"},
+		Stubs:   append([]string{"JWS contract stubs as in C09; json.Decoder token stub as in C07"}, billStubs...),
+		Bounds: map[string][]string{
+			"quick":    {"one-line invoice: item nil / without price / with price; item currency, document currency, alt-price currency, preceding-document currency each from {'', EUR, USD, ZZZ (undefined)}; tax object, taxes, percent, discounts (empty / percent with nil or set base), rate charge with nil or set rate and quantity, payment details / advances / due dates, exchange rates: present or nil by choice; numbers symbolic in small ranges", "payment: one line, debit / credit nil or set, currencies as above, document reference nil / without tax / with tax", "envelope: header nil / without digest / with digest; signature list empty / real signature / entry without JWS / nil entry; with and without key"},
+			"thorough": {"same as quick"},
+		},
+		Outside:     []string{"arbitrary bytes through encoding/json / YAML parsing, hangs, the CLI process, error-key and JSON-serialisation of errors (reflection, I/O: not encodable)"},
+		Assumptions: []string{"a panic reported by the interpreter is confirmed by running the same harness natively before it is reported"},
+	})
+}
